@@ -1224,15 +1224,18 @@ func (k *Kernel) checkNextRoundPrecommitViewShift(ctx context.Context, s *kState
 
 	maj := tmconsensus.ByzantineMajority(vs.AvailablePower)
 	maxPow := vs.PrecommitBlockPower[vs.MostVotedPrecommitHash]
-	if maxPow >= maj {
-		// Need a test in place before handling the ready to commit case.
-		panic("TODO: handle a majority precommit for NextRound")
-	}
-
 	if maxPow >= min {
 		// Make a PH fetch request if we don't have the proposed block
 		// that just crossed the threshold.
 		k.checkMissingPHs(ctx, s, s.Voting.PrecommitProofs)
+	}
+
+	if maxPow >= maj {
+		// The round we just jumped to already has a majority precommit.
+		// It is the voting round now, so handle it as any other voting round
+		// that reached precommit consensus: commit the block if we have it,
+		// advance the round on nil, or wait for the proposed header to be fetched.
+		return k.checkVotingPrecommitViewShift(ctx, s)
 	}
 
 	return nil
